@@ -12,7 +12,7 @@ func init() {
 		[]string{
 			"refreshLookup($r0, $tokenReq.RefreshToken)",
 			"true(op.ValidateGrantType($r1, oidc.GrantTypeRefreshToken))",
-			"jwtClient($r1, $tokenReq.ClientAssertion) || (" + cl + " && eq($r1.AuthMethod(), oidc.AuthMethodNone)) || (" + cl + " && neq($r1.AuthMethod(), oidc.AuthMethodNone) && secretOK($tokenReq.ClientID, $tokenReq.ClientSecret) && (neq($r1.AuthMethod(), oidc.AuthMethodPost) || true($exchanger.AuthMethodPostSupported())))",
+			"(jwtClient($r1, $tokenReq.ClientAssertion) && true($exchanger.AuthMethodPrivateKeyJWTSupported()) && is($exchanger, JWTAuthorizationGrantExchanger)) || (" + cl + " && eq($r1.AuthMethod(), oidc.AuthMethodNone)) || (" + cl + " && neq($r1.AuthMethod(), oidc.AuthMethodNone) && secretOK($tokenReq.ClientID, $tokenReq.ClientSecret) && (neq($r1.AuthMethod(), oidc.AuthMethodPost) || true($exchanger.AuthMethodPostSupported())))",
 		})
 	guarP("C07", "op.ValidateRefreshTokenScopes", []string{"requestedScopes", "authRequest"},
 		[]string{"scopesNarrowed($requestedScopes, $authRequest)"}, []string{})
